@@ -293,6 +293,14 @@
 //     literal of a translated struct a call in a field of abstract type (which
 //     the structure does not have) is dropped silently when the callee is listed
 //     under "pure" or "ignore" (otherwise it is an error in traced functions);
+//   - "ascii_strings" (per function): strings are read as ASCII texts, so that
+//     byte offsets are character offsets: `len(s)` is `goStrLen s` (number of
+//     characters), `s[lo:hi]` is `goStrSlice? s lo hi` (`none` = panic unless
+//     0 ≤ lo ≤ hi ≤ len), strings.TrimSpace / ToLower / LastIndexByte are the
+//     TrPrelude models goTrimSpace (ASCII white space) / goToLower (Char.toLower)
+//     / goLastIndexByte (-1 when absent); theorems about such a function are
+//     statements about ASCII inputs (for other valid UTF-8 the offsets differ but,
+//     as long as only ASCII bytes are searched for, cut the text at the same places);
 //   - "elem_loop" (per function): in an effect loop over an abstract collection
 //     the value variable may be re-bound from a call on itself,
 //     `v = f(v)` / `v = f(v).(T)`: the call's trace entry followed by
@@ -398,6 +406,9 @@ type TrFunc struct {
 	ListSlices bool `json:"list_slices,omitempty"`
 	// TraceNew is the file-level option "trace_new" for this function only.
 	TraceNew bool `json:"trace_new,omitempty"`
+	// AsciiStrings: strings are read as ASCII texts — byte offsets are character
+	// offsets; see the header comment.
+	AsciiStrings bool `json:"ascii_strings,omitempty"`
 	// ElemLoop: in an effect loop over an abstract collection the value variable
 	// may be re-bound (`v = f(v).(T)`) and read in what is written through it.
 	ElemLoop bool `json:"elem_loop,omitempty"`
@@ -1267,6 +1278,29 @@ func (c *fctx) expr(e ast.Expr) ex {
 		}
 		return ex{code: pre + "«call:(\"slice\", [" + arg + "])»" + name}
 	}
+	if sx, ok := e.(*ast.SliceExpr); ok && !sx.Slice3 && c.spec.AsciiStrings && isString(c.typeOf(sx.X)) {
+		// "ascii_strings": s[lo:hi] by character offsets; out of range => panic
+		c.partial = true
+		str := c.expr(sx.X)
+		parts := []ex{str, {code: "(0 : Int)"}, {code: ""}}
+		if sx.Low != nil {
+			parts[1] = c.expr(sx.Low)
+		}
+		if sx.High != nil {
+			parts[2] = c.expr(sx.High)
+		}
+		r := c.bindN(parts, func(s []string) string {
+			hi := s[2]
+			if hi == "" {
+				hi = "(goStrLen " + s[0] + ")"
+			}
+			return fmt.Sprintf("(goStrSlice? %s %s %s)", s[0], s[1], hi)
+		})
+		if r.partial {
+			return ex{code: "(Option.join " + r.code + ")", partial: true}
+		}
+		return ex{code: r.code, partial: true}
+	}
 	if sx, ok := e.(*ast.SliceExpr); ok && !sx.Slice3 {
 		if _, isSl := c.typeOf(sx.X).Underlying().(*types.Slice); isSl && strings.HasPrefix(c.t.leanType(c.typeOf(sx.X)), "(List") {
 			// xs[lo:hi] on a list (abstract buffers, symbolic tokens and, in trace
@@ -1719,6 +1753,10 @@ func (c *fctx) call(x *ast.CallExpr) ex {
 					a := c.expr(x.Args[0])
 					return c.bindN([]ex{a}, func(s []string) string { return "(" + s[0] + ".length : Int)" })
 				}
+				if isString(at) && c.spec.AsciiStrings {
+					a := c.expr(x.Args[0])
+					return c.bindN([]ex{a}, func(s []string) string { return "(goStrLen " + s[0] + ")" })
+				}
 				if isString(at) {
 					a := c.expr(x.Args[0])
 					return c.bindN([]ex{a}, func(s []string) string { return "(" + s[0] + ".utf8ByteSize : Int)" })
@@ -1807,6 +1845,13 @@ func (c *fctx) call(x *ast.CallExpr) ex {
 	}
 	if fn, ok := map[string]string{"strings.TrimPrefix": "goTrimPrefix", "strings.TrimSuffix": "goTrimSuffix", "strings.HasPrefix": "goHasPrefix",
 		"strings.HasSuffix": "goHasSuffix", "strings.SplitN": "goSplitN", "strings.Split": "goSplit", "strings.Contains": "goContains"}[key]; ok {
+		var xs []ex
+		for _, a := range x.Args {
+			xs = append(xs, c.expr(a))
+		}
+		return c.bindN(xs, func(s []string) string { return "(" + fn + " " + strings.Join(s, " ") + ")" })
+	}
+	if fn, ok := map[string]string{"strings.TrimSpace": "goTrimSpace", "strings.ToLower": "goToLower", "strings.LastIndexByte": "goLastIndexByte"}[key]; ok && c.spec.AsciiStrings {
 		var xs []ex
 		for _, a := range x.Args {
 			xs = append(xs, c.expr(a))
